@@ -55,7 +55,8 @@ REG.lemma("C05_pairs_are_nodes_2", params=_PX, requires=[],
           ensures=["forall(Filter, Filter, Node, Node, lambda s, o, n, c: implies((s in S) and (o in O) and deps_rel(g, s, o, n, c) and layer_of(L, n) != layer_of(L, c), "
                    "G_realised_b(g, S, O, subj, order_b(subj, dep_of(n, c))) and cross_layer(L, order_b(subj, dep_of(n, c)))))"], cases=["subj"], properties=P)
 REG.lemma("C05_forbidden_access_nodes", params=_PP, requires=_HY,
-          ensures=["N_cross_edge(g, L, S, O) == exists(LayerName, lambda B: (B in Bs) and D_access(g, L, A, B, subj))"], cases=["subj"], properties=P)
+          ensures=["implies(N_cross_edge(g, L, S, O), exists(LayerName, lambda B: (B in Bs) and D_access(g, L, A, B, subj)))",
+                   "implies(exists(LayerName, lambda B: (B in Bs) and D_access(g, L, A, B, subj)), N_cross_edge(g, L, S, O))"], cases=["subj"], properties=P)
 
 REG.define("N_cross_other", dict(g="Graph", L="Opaque[LayerMapping]", S="Bag[Filter]", O="Bag[Filter]", subj="Bool"),
            "exists(Filter, Node, Node, lambda s, n, c: (s in S) and other_rel(g, s, O, n, c) and layer_of(L, n) != layer_of(L, c)) if subj else "
@@ -69,7 +70,8 @@ REG.lemma("C05_other_pairs_are_nodes_2", params=_PX, requires=[],
                    "implies(not subj, forall(Filter, Node, Node, lambda o, p, n: implies((o in O) and other_rev_rel(g, S, o, p, n) and layer_of(L, p) != layer_of(L, n), "
                    "G_or_r(g, S, O, dep_of(n, p)) and cross_layer(L, dep_of(n, p)))))"], cases=["subj"], properties=P)
 REG.lemma("C05_forbidden_other_nodes", params=_PP, requires=_HY,
-          ensures=["N_cross_other(g, L, S, O, subj) == D_other(g, L, A, Bs, subj)"], cases=["subj"], properties=P)
+          ensures=["implies(N_cross_other(g, L, S, O, subj), D_other(g, L, A, Bs, subj))", "implies(D_other(g, L, A, Bs, subj), N_cross_other(g, L, S, O, subj))"],
+          cases=["subj"], properties=P)
 
 # missing 'other' access (should ... except, should_only ... except): reported iff the rule names an object and NO import leaves A for something outside the object layers
 _PO = dict(_PP, objs="Bag[Filter]")
